@@ -215,9 +215,10 @@ def programs(h: Harness):
     from geneticengine.representations.tree.treebased import TreeBasedRepresentation
     rng = h.rng
     corpus = failing_element_specs()
-    for gi in range(h.n(90, 1500) + len(corpus)):
-        spec = corpus[gi] if gi < len(corpus) else dense_spec(rng)
-        if gi < len(corpus):
+    n_rep = 5      # (each witness several times: deciders and depth limits are drawn at random)
+    for gi in range(h.n(90, 1500) + n_rep * len(corpus)):
+        spec = corpus[gi % len(corpus)] if gi < n_rep * len(corpus) else dense_spec(rng)
+        if gi < n_rep * len(corpus):
             h.count("corpus:list-elements-that-cannot-be-created")
         b = gram.build(spec)
         try:
